@@ -15,6 +15,7 @@ import (
 	"github.com/LemoFoundationLtd/lemochain-core/chain/types"
 	"github.com/LemoFoundationLtd/lemochain-core/common"
 	"github.com/LemoFoundationLtd/lemochain-core/common/hexutil"
+	"github.com/LemoFoundationLtd/lemochain-core/common/rlp"
 
 	"verif/fx"
 	"verif/fx/run"
@@ -195,6 +196,16 @@ func (m *mon) textOne(s string, cs *Case) (accepted int) {
 					fmt.Sprintf("%s accepted a transaction that cannot be RLP encoded (%v); its Hash() is the hash of an empty encoding: %s", o.d.name, err, tx.Hash().Hex()))
 			} else {
 				c.Stat("json_transactions_with_wire_form", 1)
+				// ... and only of that form: whatever the text said next to the fields (a "hash" member), the hash of the
+				// accepted value is the hash of the transaction its wire form decodes to
+				enc, _ := rlpEnc(tx)
+				tx2 := new(types.Transaction)
+				if e := rlp.DecodeBytes(enc, tx2); e == nil {
+					c.Stat("json_transaction_hashes_compared_with_wire_form", 1)
+					if tx2.Hash() != tx.Hash() {
+						m.viol(cs, "hash-not-function-of-fields:"+o.d.name, fmt.Sprintf("%s accepted a transaction whose Hash() is %s, but its own wire form decodes to a transaction with hash %s", o.d.name, tx.Hash().Hex(), tx2.Hash().Hex()))
+					}
+				}
 			}
 		}
 	}
